@@ -1,8 +1,190 @@
-(* C13 -- WebSocket messages arrive intact, in order, on an RFC 6455-valid wire. *)
-From Verif Require Import Lib.Base Lib.Sx Model.WsWrite Proofs.WsWrite.
+(* C13 -- WebSocket messages arrive intact, in order, on an RFC 6455-valid wire.
+   Property theorems only.  Model: Model/WsWrite.v (conn.go write path, compression.go truncWriter,
+   mask.go, prepared.go) and, in the same file, an independent RFC 6455 / 7692 frame parser
+   [rfc_parse], validity predicate [rfc_valid] and reassembly [messages].
+
+   Scripts ([item], [wr] in Proofs/WsWriteSession.v) are what an application does with the write
+   API: NextWriter + any sequence of Write / WriteString / ReadFrom (any reader behaviour) /
+   interleaved WriteControl + Close, the WriteMessage helper (server fast path with the "extra"
+   bypass included), and WriteControl between messages.  [run_items] runs them through the model
+   functions that the harness cases are run through ([script_is_step_op]). *)
+From Verif Require Import Lib.Base Lib.Sx Model.WsWrite.
+From Verif Require Import Proofs.WsWrite Proofs.WsWriteFrame Proofs.WsWriteSession Proofs.WsWriteZ Proofs.WsWritePrepared.
 Open Scope N_scope.
 
+(* ---- c13_wire_valid: connections without per-message compression ----
+   For EVERY role (client masks with whatever keys the oracle stream [ks] yields, server does
+   not), EVERY write buffer size B >= 1 (blen = B + maxFrameHeaderSize >= 15), EVERY sequence
+   of messages of any size, EVERY mix of the write APIs and EVERY partition into partial writes:
+   no call fails, the bytes put on the transport parse completely under the independent parser,
+   the frames satisfy [rfc_valid] (known opcodes, RSV bits clear, mask bit by role, MINIMAL
+   length form, control frames final and <= 125 bytes, FIN/continuation sequencing, wire ends
+   between messages), and reassembling the parsed frames yields exactly the messages written, in
+   order, with their types (this is c13_roundtrip for the independent reassembly [messages]). *)
+Theorem c13_wire_valid c ks its :
+  15 <= blen c < big -> Forall (fun k : bytes => length k = 4%nat) ks -> Forall item_ok its ->
+  exists s', run_items c (init_cst false ks) its = Ok (s', eOK) /\
+  exists fs, rfc_parse (wire_of s') = Some fs /\ rfc_valid (srv c) false fs = true /\
+             messages fs = Some (concat (map item_msgs its)).
+Proof. exact (wire_valid_uncompressed c ks its). Qed.
+
+(* non-vacuity: a client with a 16-byte buffer, a fragmented text message written through
+   Write / WriteControl / ReadFrom / WriteString, a pong, and a 200-byte WriteMessage *)
+Theorem c13_wire_valid_instance :
+  let c := mkC false (16 + 14) in
+  let its := [IMsg 1 [WrWrite [104;105]; WrCtl 9 [1]; WrReadFrom (repeat 7 40) [3; 0] true; WrString []];
+              ICtl 10 []; IWriteMessage 2 (repeat 9 200)] in
+  Forall item_ok its /\
+  match run_items c (init_cst false [[1;2;3;4]]) its with
+  | Ok (s', e) => e = 0 /\ match rfc_parse (wire_of s') with
+                           | Some fs => rfc_valid false false fs = true /\ (4 <= length fs)%nat
+                           | None => False end
+  | _ => False
+  end.
+Proof. exact wire_valid_instance. Qed.
+
+(* the same from any fresh connection state: whatever the 14-byte header area in front of the
+   write buffer holds initially (on a server it holds the first bytes of the handshake response,
+   written through the same buffer) and whatever the compression level field *)
+Theorem c13_wire_valid_any_header c h ks l its :
+  15 <= blen c < big -> length h = 14%nat ->
+  Forall (fun k : bytes => length k = 4%nat) ks -> Forall item_ok its ->
+  exists s', run_items c (cst0 (mkM h [] maxHdr 0 false ks [] 0) false l) its = Ok (s', eOK) /\
+  exists fs, rfc_parse (wire_of s') = Some fs /\ rfc_valid (srv c) false fs = true /\
+             messages fs = Some (concat (map item_msgs its)).
+Proof. exact (wire_valid_any_header c h ks l its). Qed.
+
+(* ---- prepared messages (keys without compression) ----
+   [seg_ok role v msgs]: v is a closed run of valid frames that reassembles to msgs.
+   PreparedMessage.frame(key) -- WriteMessage on a scratch connection with the default buffer,
+   so the client variant is fragmented at 4096 bytes -- is such a run carrying exactly the
+   message, for every size; the first WritePreparedMessage under a key computes, caches and
+   sends it; every later one sends the cached bytes and draws no mask key; both leave the
+   connection in the between-messages invariant [SInv] from which c13_wire_valid's induction
+   continues (SInv c s ds dn: the wire so far is the encoding of the frame list ds, valid, closed,
+   reassembling to dn). *)
+Theorem c13_prepared_frame is_srv l t p ks :
+  data_type t -> lenN p < big -> Forall (fun k : bytes => length k = 4%nat) ks ->
+  exists v ks', prepared_frame is_srv false l t p ks [] [] = Ok (v, ks', eOK) /\
+    seg_ok is_srv v [(t, false, p)] /\ Forall (fun k : bytes => length k = 4%nat) ks'.
+Proof. exact (prepared_frame_ok is_srv l t p ks). Qed.
+
+Theorem c13_prepared_first c s ds dn idx t p :
+  SInv c s ds dn -> data_type t -> lenN p < big ->
+  pfind (idx, srv c, false, lvl s) (pcache s) = None ->
+  exists s' ds' v, do_prepared c s idx t p [] [] = Ok (s', eOK) /\ SInv c s' ds' (dn ++ [(t, false, p)]) /\
+    seg_ok (srv c) v [(t, false, p)] /\ pcache s' = ((idx, srv c, false, lvl s), v) :: pcache s /\ lvl s' = lvl s.
+Proof. exact (do_prepared_miss c s ds dn idx t p). Qed.
+
+Theorem c13_prepared_again c s ds dn idx t p v :
+  SInv c s ds dn -> data_type t ->
+  pfind (idx, srv c, false, lvl s) (pcache s) = Some v -> seg_ok (srv c) v [(t, false, p)] ->
+  exists s' ds', do_prepared c s idx t p [] [] = Ok (s', eOK) /\ SInv c s' ds' (dn ++ [(t, false, p)]) /\
+    pcache s' = pcache s /\ keys (mw s') = keys (mw s) /\ lvl s' = lvl s.
+Proof. exact (do_prepared_hit c s ds dn idx t p v). Qed.
+
+(* what SInv means for an observer of the wire *)
+Theorem c13_invariant_meaning c s ds dn : SInv c s ds dn ->
+  exists fs, rfc_parse (wire_of s) = Some fs /\ rfc_valid (srv c) false fs = true /\ messages fs = Some dn.
+Proof. exact (SInv_final c s ds dn). Qed.
+
+(* ---- c13_wire_valid_compressed: permessage-deflate negotiated and enabled ----
+   compress/flate is an oracle: a message is described by the chunks the flate writer handed to
+   the truncWriter during each Write and during Close (fw.Flush); the only assumption is that
+   the whole stream ends with the sync-flush marker 00 00 ff ff ([zitem_ok]).  For every role,
+   buffer size, chunking and message sequence: no call fails (in particular the
+   "unexpected bytes at end of flate stream" check passes), the wire is [rfc_valid] with RSV1 on
+   exactly the first frame of every data message, and every message's reassembled payload is
+   its flate stream minus the last four bytes. *)
+Theorem c13_wire_valid_compressed c ks its :
+  15 <= blen c < big -> Forall (fun k : bytes => length k = 4%nat) ks -> Forall zitem_ok its ->
+  exists s', run_zitems c (init_cst true ks) its = Ok (s', eOK) /\
+  exists fs, rfc_parse (wire_of s') = Some fs /\ rfc_valid (srv c) true fs = true /\
+             messages fs = Some (concat (map zitem_msgs its)).
+Proof. exact (wire_valid_compressed c ks its). Qed.
+
+(* ... and appending 00 00 ff ff to that payload (RFC 7692 7.2.2, what the read side's
+   tail re-insertion does) inflates to the message, for any inflate/deflate pair with the
+   sync-flush law (Section hypothesis, discharged here by the caller: no axiom). *)
+Theorem c13_roundtrip_compressed
+  (inflate : bytes -> option bytes) (deflate_of : bytes -> bytes -> Prop)
+  (law : forall data stream, deflate_of data stream ->
+           exists body, stream = body ++ flate_tail /\ inflate (body ++ flate_tail) = Some data)
+  data stream :
+  deflate_of data stream -> inflate (zbody stream ++ flate_tail) = Some data.
+Proof. exact (compressed_roundtrip inflate deflate_of law data stream). Qed.
+
+(* ---- c13_flush_frame: one flushFrame call = one RFC frame, header in front of the data ----
+   For every state with a 14-byte header area (contents arbitrary: stale bytes of earlier frames
+   or of the handshake response never reach the wire), buffered data d and server-side extra e:
+   the transport receives exactly [enc_frame] of d ++ e -- FIN as requested, RSV1 = the compress
+   flag, the writer's opcode, the 7-bit / 16-bit / 64-bit length form chosen minimally, and on a
+   client the fresh key followed by the masked payload -- and a non-final flush resets the
+   writer to an empty buffer with opcode continuation and RSV1 cleared. *)
+Theorem c13_flush_frame c w (final : bool) extra :
+  good w -> op_ok (ftype w) ->
+  (is_control (ftype w) = true -> final = true /\ lenN (buffered w ++ extra) <= 125) ->
+  (srv c = false -> extra = []) ->
+  lenN (buffered w ++ extra) < 9223372036854775808 ->
+  exists w', flush_frame c w final extra = Ok (w', eOK) /\
+    wire w' = wire w ++ enc_frame (srv c) final (cflag w) (ftype w) (next_key w) (buffered w ++ extra) /\
+    keys w' = (if srv c then keys w else snd (pop_key (keys w))) /\
+    length (hdr w') = 14%nat /\
+    werrc w' = (if ftype w =? opClose then eCloseSent else 0) /\
+    (final = false -> rbuf w' = [] /\ pos w' = maxHdr /\ ftype w' = opCont /\ cflag w' = false).
+Proof. exact (flush_ok c w final extra). Qed.
+
+(* the independent parser reads every such frame back (all three length forms, both roles) *)
+Theorem c13_parse_encoded is_srv (fin z : bool) op key pl rest :
+  op_ok op -> length key = 4%nat -> lenN pl < 9223372036854775808 ->
+  parse_one (enc_frame is_srv fin z op key pl ++ rest) = Some (abs_frame is_srv fin z op key pl, rest).
+Proof. exact (parse_enc is_srv fin z op key pl rest). Qed.
+
+(* ---- c13_trunc: truncWriter ----
+   every chunking of a stream of at least four bytes: everything but the last four bytes reaches
+   the underlying writer, in order; exactly the last four are retained; shorter streams emit
+   nothing. *)
+Theorem c13_trunc chunks :
+  let s := concat chunks in
+  let r := tw_run tw0 chunks in
+  (4 <= length s)%nat ->
+  concat (snd r) = firstn (length s - 4) s /\ tp (fst r) = skipn (length s - 4) s /\ tn (fst r) = 4.
+Proof. exact (trunc_writer_spec chunks). Qed.
+
+Theorem c13_trunc_short chunks :
+  let s := concat chunks in
+  let r := tw_run tw0 chunks in
+  (length s < 4)%nat ->
+  concat (snd r) = [] /\ tn (fst r) = N.of_nat (length s) /\ firstn (length s) (tp (fst r)) = s.
+Proof. exact (trunc_writer_short chunks). Qed.
+
+(* ---- c13_mask_involutive: masking ---- *)
 Theorem c13_mask_involutive k pos b : mask_from k pos (mask_from k pos b) = b.
 Proof. exact (mask_from_involutive k b pos). Qed.
 
+(* the word-at-a-time loop of mask.go (any alignment of the buffer, any starting position)
+   computes the byte-at-a-time definition and returns (pos + len) & 3 *)
+Theorem c13_mask_words align k pos b :
+  mask_words align k pos b = (mask_from k pos b, (pos + lenN b) mod 4).
+Proof. exact (mask_words_spec align k pos b). Qed.
+
+(* the rotating-key variant the executable model runs is the same function *)
+Theorem c13_mask_fast k pos b : length k = 4%nat -> mask_fast k pos b = mask_from k pos b.
+Proof. exact (mask_fast_spec k pos b). Qed.
+
+Print Assumptions c13_wire_valid.
+Print Assumptions c13_wire_valid_instance.
+Print Assumptions c13_wire_valid_any_header.
+Print Assumptions c13_prepared_frame.
+Print Assumptions c13_prepared_first.
+Print Assumptions c13_prepared_again.
+Print Assumptions c13_invariant_meaning.
+Print Assumptions c13_wire_valid_compressed.
+Print Assumptions c13_roundtrip_compressed.
+Print Assumptions c13_flush_frame.
+Print Assumptions c13_parse_encoded.
+Print Assumptions c13_trunc.
+Print Assumptions c13_trunc_short.
 Print Assumptions c13_mask_involutive.
+Print Assumptions c13_mask_words.
+Print Assumptions c13_mask_fast.
